@@ -65,7 +65,7 @@ def _same(a, b):
 def _interp(ctx):
     rng = ctx.rng
     cases = []
-    for _ in range(ctx.n(300, 20000)):
+    for _ in range(ctx.n(1200, 20000)):
         n = rng.choice([0, 1, 1, 2, 2, 3, 4, 5, 8])
         xp = sorted(set(round(rng.uniform(-10, 10), rng.choice([0, 1, 6])) for _ in range(n)))
         fp = [rng.choice([rng.uniform(-100, 100), float(rng.randrange(-5, 6))]) for _ in xp]
@@ -141,7 +141,7 @@ def _gen_mi(ctx):
                       'mdtype': mdtype, 'x': xs, 'axis': axis, 'const': const})
 
     dens = ['allgood', 'allbad', 'sparse', 'half', 'dense', 'dense']
-    for _ in range(ctx.n(500, 60000)):
+    for _ in range(ctx.n(2000, 60000)):
         ndim = rng.choice([1, 1, 2, 2, 3])
         shape = [rng.choice([1, 2, 3, 4, 5, 7, 12] if ndim == 1 else [1, 2, 3, 4, 5]) for _ in range(ndim)]
         if ndim == 1 and rng.random() < 0.3:
@@ -287,11 +287,12 @@ def _aesthetics(ctx):
     rng = ctx.rng
     from pydl.pydlspec2d.spec2d import aesthetics
     cases = []
-    for _ in range(ctx.n(400, 40000)):
+    for _ in range(ctx.n(1600, 40000)):
         n = rng.choice([1, 2, 3, 5, 8, 13, 30])
         flux = [rng.choice([round(rng.uniform(-20, 20), 2), rng.uniform(-1e3, 1e3)]) for _ in range(n)]
         d = rng.choice([0.0, 0.2, 0.5, 0.9, 1.0])
-        iv = [0.0 if rng.random() < d else rng.choice([1.0, rng.uniform(0.01, 50)]) for _ in range(n)]
+        # a tiny inverse variance (faint-flux units, 1e-10 .. 1e-300) is not zero: such a pixel is good
+        iv = [0.0 if rng.random() < d else rng.choice([1.0, rng.uniform(0.01, 50), rng.uniform(0.01, 50), 10.0 ** rng.uniform(-300, -9)]) for _ in range(n)]
         if rng.random() < 0.1 and n > 1:
             k = rng.randrange(n)
             iv = [0.0] * n
@@ -335,7 +336,7 @@ def _median(ctx):
     from pydl.pydlutils.math import djs_median
     from scipy.ndimage import median_filter
     cases = []
-    for _ in range(ctx.n(400, 40000)):
+    for _ in range(ctx.n(1600, 40000)):
         n = rng.choice([1, 2, 3, 4, 5, 6, 9, 17, rng.randrange(1, 41)])
         w = rng.choice([1, 2, 3, 3, 4, 5, 5, 6, 7, 9, 11])
         # '+ 0.0' turns -0.0 into 0.0: which of two equal zeros a median returns is not part of the property
@@ -364,7 +365,7 @@ def _median(ctx):
         if 'err' in impl or _unbits(impl['ok']) != [float(v) for v in want]:
             ctx.violate('med:not-reflecting-median', 'n=%d w=%d differs from scipy.ndimage.median_filter(mode="reflect"): %s' % (n, w, impl), c)
     # 2-D: oracle only (the Lean model covers the 1-D branch)
-    for _ in range(ctx.n(60, 5000)):
+    for _ in range(ctx.n(250, 5000)):
         w = rng.choice([3, 3, 5, 7])
         pad = (w + 1) // 2
         sh = (rng.randrange(pad, pad + 7), rng.randrange(pad, pad + 7))
@@ -508,7 +509,7 @@ def _gen_rej(ctx):
 
     lims = {'lower': [None, 0.0, 1.5, 3.0], 'upper': [None, 0.0, 1.5, 3.0], 'maxdev': [None, 0.375, 3.0]}
     combos = list(itertools.product(['sigma-scalar', 'sigma-array', 'invvar', 'none'], [0, 1, 2, 3], [False, True], [False, True], [False, True]))
-    reps = ctx.n(2, 150)
+    reps = ctx.n(8, 150)
     for smode, grow, hasin, hasout, sticky in combos:
         for _ in range(reps):
             n = rng.choice([1, 2, 3, 5, 8, 14])
@@ -517,7 +518,7 @@ def _gen_rej(ctx):
             if md == 0.0:
                 md = 0.5
             mk(n, smode, lo, up, md, hasin, hasout, sticky, grow, exact=exact, kind='grid' if exact else 'float')
-    for _ in range(ctx.n(60, 10000)):   # 2-D / 3-D data, grow = 0 (elementwise)
+    for _ in range(ctx.n(250, 10000)):   # 2-D / 3-D data, grow = 0 (elementwise)
         shape = [rng.choice([1, 2, 3, 4]) for _ in range(rng.choice([2, 3]))]
         mk(int(np.prod(shape)), rng.choice(['sigma-scalar', 'sigma-array', 'invvar']), rng.choice(lims['lower']), rng.choice(lims['upper']),
            rng.choice(lims['maxdev']), rng.random() < 0.5, rng.random() < 0.5, rng.random() < 0.5, 0, shape=shape, kind='nd')
@@ -674,7 +675,7 @@ def _oracle_sky(c):
 def _gen_sky(ctx):
     rng = ctx.rng
     cases = []
-    for _ in range(ctx.n(400, 60000)):
+    for _ in range(ctx.n(1600, 60000)):
         nrows = rng.choice([1, 1, 2, 3])
         npix = rng.choice([1, 2, 3, 4, 5, 7, 11, 16, 24])
         dt = rng.choice(['int16', 'int32', 'int32', 'int64', 'uint64', None])
